@@ -1087,3 +1087,68 @@ M("o7-quiet-split-disjunction", "C04", "quiet", "src/circuit.rs",
                         return self.push_and(x, y2);
                     } else if x2 == y1 {
                         return self.push_and(y2, x);""", "behaviour-preserving: disjunction split, operands commuted")
+
+# ---------------------------------------------------------------- C10 R1b / R7
+M("r1b-not-operand-unrecorded", "C10", "fire R1b", "src/register_circuit.rs",
+  """            Wire::Not(a) => {
+                last_used.insert(a, gate_id);
+            }""",
+  """            Wire::Not(_) => {}""", "operands of NOT gates are never recorded as uses")
+M("r1b-second-operand-unrecorded", "C10", "fire R1b", "src/register_circuit.rs",
+  """                last_used.insert(a, gate_id);
+                last_used.insert(b, gate_id);""",
+  """                last_used.insert(a, gate_id);
+                last_used.insert(a.max(b), gate_id);""", "second operand recorded only when it is the larger index")
+M("r7-release-before-last-use", "C10", "fire R7", "src/register_circuit.rs",
+  """        if let Some(&last_use) = self.last_used.get(&a) {
+            if last_use == gate_id {""",
+  """        if let Some(&last_use) = self.last_used.get(&a) {
+            if last_use <= gate_id + 1 {""", "operand a released one gate early")
+M("r7-compare-other-operand", "C10", "fire R7", "src/register_circuit.rs",
+  """            if let Some(&last_use) = self.last_used.get(&b) {
+                if last_use == gate_id {""",
+  """            if let Some(&last_use) = self.last_used.get(&a) {
+                if last_use == gate_id {""", "b released when a dies")
+
+M("o5-quiet-ne-form", "C04", "quiet", "src/circuit.rs",
+  """        if x == 0 {
+            return Some(y);
+        } else if y == 0 {
+            return Some(x);
+        } else if x == y {
+            return Some(0);
+        } else if let Some(&x_negated) = self.negated.get(&x) {
+            if x_negated == y {
+                return Some(1);""",
+  """        if x != 0 {
+            if y == 0 {
+                return Some(x);
+            }
+        } else {
+            return Some(y);
+        }
+        if x == y {
+            return Some(0);
+        } else if let Some(&x_negated) = self.negated.get(&x) {
+            if x_negated == y {
+                return Some(1);""", "behaviour-preserving: first folding case written with !=")
+M("r7-quiet-ne-form", "C10", "quiet", "src/register_circuit.rs",
+  """                if last_use == gate_id {
+                    // This might be None if a == b, as we already removed a previously
+                    if let Some(reg) = self.wire_map.remove(&b) {
+                        if reuse_reg.is_some() {
+                            self.free_regs.push(reg);
+                        } else {
+                            reuse_reg = Some(reg);
+                        }
+                    }
+                }""",
+  """                if last_use != gate_id {
+                    // still live
+                } else if let Some(reg) = self.wire_map.remove(&b) {
+                    if reuse_reg.is_some() {
+                        self.free_regs.push(reg);
+                    } else {
+                        reuse_reg = Some(reg);
+                    }
+                }""", "behaviour-preserving: last-use test written with !=")
